@@ -291,6 +291,6 @@ func main() {
 		Rule: "one case = one generated program (16-bit registers and SP aimed at FE00-FEFF: INC/DEC rr, PUSH/POP, LDI/LDD, loads, stores) run with the LCD switched off at a given (line, cycle offset), or with the LCD on; " +
 			"evaluations count monitored machine cycles with the LCD off or in mode 2; every cycle in which OAM changes is attributed",
 		Assumptions: []string{"OAM is observed through the side-effect-free snapshot hook", "CPU writes are those predicted by the lock-step reference for the unit in flight",
-			"with the LCD on and in mode 2 any change is accepted (the exact corruption patterns of the OAM bug are not part of the statement)"},
+			"with the LCD on and in mode 2 a change is accepted as the OAM bug (whose exact corruption patterns are not part of the statement) only if the CPU unit in flight has a register pair, SP, PC or a predicted access at FE00-FEFF (or one step beside it); while a transfer runs every change must be the byte fetched in the previous cycle or a CPU write"},
 	})
 }
